@@ -992,6 +992,51 @@ func init() {
 		}
 		return nil
 	}
+	// vWatchAll(ptr, prefix): every field of the struct behind ptr becomes a
+	// watched location named after the field (the contents of map-valued
+	// fields too); sync.Mutex / sync.RWMutex fields are named prefix.field.
+	// The harness needs no knowledge of the representation.
+	apiIntrinsics["vWatchAll"] = func(fr *frame, args []value) value {
+		x, ok := args[0].(iface)
+		if !ok || x.t == nil {
+			return nil
+		}
+		pt, ok := x.t.Underlying().(*types.Pointer)
+		if !ok {
+			panic(engineError{"vWatchAll: not a pointer to a struct"})
+		}
+		st, ok := pt.Elem().Underlying().(*types.Struct)
+		if !ok {
+			panic(engineError{"vWatchAll: not a pointer to a struct"})
+		}
+		cell := ptrOf(x)
+		if cell == nil {
+			return nil
+		}
+		fields, ok := (*cell).(structure)
+		if !ok {
+			panic(engineError{"vWatchAll: unexpected struct representation"})
+		}
+		prefix := concreteString(args[1], "prefix")
+		for i := 0; i < st.NumFields() && i < len(fields); i++ {
+			f := st.Field(i)
+			fp := &fields[i]
+			if n, isNamed := f.Type().(*types.Named); isNamed && n.Obj().Pkg() != nil && n.Obj().Pkg().Path() == "sync" &&
+				(n.Obj().Name() == "Mutex" || n.Obj().Name() == "RWMutex") {
+				fr.r.names[fp] = prefix + "." + f.Name()
+				continue
+			}
+			switch f.Type().Underlying().(type) {
+			case *types.Signature, *types.Interface, *types.Array:
+				continue // set once at construction; calls through them are traced by the callee model
+			}
+			fr.r.watch[fp] = f.Name()
+			if m, isMap := fields[i].(*smap); isMap && m != nil {
+				fr.r.watchMap[m] = f.Name()
+			}
+		}
+		return nil
+	}
 	apiIntrinsics["vWatchMap"] = func(fr *frame, args []value) value {
 		if m, ok := args[0].(iface).v.(*smap); ok && m != nil {
 			fr.r.watchMap[m] = concreteString(args[1], "location")
